@@ -214,6 +214,21 @@ theorem range_ref_stable (s : String) (reg reg' : List (String × Addr)) (a : Ad
     (h : resolveRef s reg = .ok a) : resolveRef s reg' = .ok a :=
   resolveRef_mono s reg reg' a hm h
 
+/-- the range form `stem{a:b}` is accepted only if EVERY member `stem+a, …, stem+(b-1)` is registered: an undefined
+first / middle / last member is a dangling reference (it is not enough that the last one, which the reference denotes,
+exists) -/
+theorem range_ref_every_member_registered (s : String) (reg : List (String × Addr)) (x : Addr)
+    (stem : String) (a b : Int) (hc : s.toList.contains '{' = true)
+    (hp : parseRangeRef s = some (stem, a, b)) (h : resolveRef s reg = .ok x) :
+    ∀ i : Nat, i < (b - a).toNat → ∃ y, regLookup (stem ++ toString (a + (i : Int))) reg = some y := by
+  unfold resolveRef at h
+  simp only [hc, if_true] at h
+  exact resolveRange_all s reg x stem a b hp h
+
+/-- non-vacuity: the loop over `w.0, w.1, w.2` with `w.1` undefined fails although the last member `w.2` exists -/
+example : (match rangeFold (fun i => regLookup ("w." ++ toString ((0 : Int) + (i : Int))) [("w.0", 0), ("w.2", 1)])
+    "w.{0:3}" (List.range 3) (.ok none) with | .ok _ => false | .error _ => true) = true := by decide +kernel
+
 /-- a holder of an id holds the object literal that defined it: resolving `id` after the literal
 was processed yields the address the literal was allocated at -/
 theorem ref_is_the_literal (cfg : Cfg) (hb : cfg.checkBefore = true) (hc : cfg.checkAfter = true)
